@@ -266,6 +266,84 @@ class E2E:
             if self.copies > 60:
                 await self.purge_trash()
 
+    async def arrivals(self, rnd, rounds):
+        """The mailbox changes behind the session's back (the MH agent files mail,
+        another session appends or expunges) and the *first* thing the session
+        sends afterwards is a UID command whose set contains `*` or reaches past
+        the highest UID it knows.  Whatever state the server answers for, it is
+        one state: when the reply itself announces the new message count, the set
+        denotes messages of the new state -- in FETCH as in SEARCH, STORE, COPY."""
+        from ..gen import CidFactory as _Cid
+
+        s, cx = self.s, self.cx
+        other = self.rig.session("F")
+        cids = _Cid("arr")
+        for rd in range(rounds):
+            name = f"arr{rd}"
+            n0 = rnd.choice([0, 0, 1, 3])
+            await s.cmd(f"CREATE {name}")
+            for i in range(n0 + 1):
+                await s.append(name, cids.make()[1])
+            await s.cmd(f"SELECT {name}")
+            # (sparse UIDs, and for n0 == 0 a mailbox that has been emptied)
+            await s.cmd("STORE 1 +FLAGS.SILENT (\\Deleted)")
+            await s.cmd("EXPUNGE")
+            r = await s.cmd("UID SEARCH ALL")
+            old = sorted(x for y in r.untagged("SEARCH") for x in y.data)
+            r = await s.cmd(f"STATUS {name} (UIDNEXT)") if False else None
+            how = rnd.choice(["deliver", "deliver", "append", "expunge-top"] if old else ["deliver", "deliver", "append"])
+            if how == "deliver":
+                for _ in range(rnd.choice([1, 2])):
+                    self.rig.deliver_raw(name, cids.make()[1])
+                await self.rig.advance(rnd.choice([0, 2, 12]))
+            elif how == "append":
+                await other.append(name, cids.make()[1])
+            else:
+                await other.cmd(f"SELECT {name}")
+                await other.cmd(f"UID STORE {old[-1]} +FLAGS.SILENT (\\Deleted)")
+                await other.cmd("EXPUNGE")
+                await other.cmd("UNSELECT")
+            top = (old[-1] if old else 1)
+            text = rnd.choice(["*", f"{top + 1}:*", f"{top}:*", "1:*", f"*:{top + 1}", f"{top + 1}:{top + 9}"])
+            kind = rnd.choice(["UID FETCH", "UID FETCH", "UID STORE", "UID SEARCH UID", "UID COPY"])
+            nview_before = s.view_n
+            if kind == "UID FETCH":
+                r = await s.cmd(f"UID FETCH {text} (UID)")
+                got = {d["UID"] for _, d in r.fetches() if "UID" in d}
+            elif kind == "UID STORE":
+                r = await s.cmd(f"UID STORE {text} +FLAGS.SILENT (probe)")
+                got = None
+            elif kind == "UID SEARCH UID":
+                r = await s.cmd(f"UID SEARCH UID {text}")
+                got = {x for y in r.untagged("SEARCH") for x in y.data}
+            else:
+                r = await s.cmd(f"UID COPY {text} trash")
+                m = re.match(r"COPYUID \d+ (\S+) (\S+)", ((r.tagged.code or "") + " ") if r.tagged else "")
+                got = set(expand_uidset(m.group(1))) if m else set()
+            announced = [x.num for x in r.responses if x.kind == "num" and x.name == "EXISTS"]
+            gone_told = sum(1 for x in r.responses if x.kind == "num" and x.name == "EXPUNGE")
+            r2 = await s.cmd("UID SEARCH ALL")
+            new = sorted(x for y in r2.untagged("SEARCH") for x in y.data)
+            if kind == "UID STORE":
+                r3 = await s.cmd("UID SEARCH KEYWORD probe")
+                got = {x for y in r3.untagged("SEARCH") for x in y.data}
+            cx["arrival_first_command_checks"] += 1
+            cx["arrival:" + how + ":" + kind] += 1
+            if r.status != "OK":
+                self.bad(kind, text, f"first command after {how}: {r.status} {r.tagged.text if r.tagged else ''}")
+                continue
+            w_new, _ = den(text, new, True)
+            w_old, _ = den(text, old, True)
+            noticed = bool(announced and announced[-1] == len(new) and len(new) != len(old)) or (how == "expunge-top" and gone_told)
+            if noticed:
+                cx["arrival_noticed_in_the_same_command"] += 1
+            ok = (got == w_new) if noticed else (got in (w_new, w_old & set(new) if isinstance(w_old, set) else w_old, w_old))
+            if not ok:
+                self.bad(kind, text, f"first command after {how} (mailbox had UIDs {old}, has {new}; reply announced EXISTS {announced}): acted on {sorted(got) if isinstance(got, set) else got}, "
+                                     f"the set denotes {sorted(w_new) if isinstance(w_new, set) else w_new} there")
+            await s.cmd("UID STORE 1:* -FLAGS.SILENT (probe)")
+            await s.cmd(f"SELECT {self.name}")
+
     async def purge_trash(self):
         s = self.s
         await s.cmd("SELECT trash")
@@ -370,6 +448,9 @@ async def script(loop, ctx):
                 text = rnd.choice(sets)
                 await e.destructive(text, rnd, j)
                 evaluated += 1
+            if plan.get("arrivals"):
+                await e.arrivals(rnd, plan["arrivals"])
+                evaluated += plan["arrivals"]
             cx["e2e_sets"] += evaluated
             viols += e.viols
             samples = [f"N={n} uids={uids} end-to-end sets: {mine[:6]} ..."]
@@ -407,13 +488,15 @@ def plan(tier, seed, scale):
             for part in range(6):
                 plans.append({"n": n, "mode": "e2e", "max_elems": 2, "part": part, "parts": 6, "limit": int(110 * scale), "heavy_every": 3, "destructive": 6})
         plans.append({"n": 5, "mode": "e2e", "max_elems": 1, "part": 0, "parts": 1, "limit": int(60 * scale), "heavy_every": 2, "destructive": 4})
+        for part in range(4):
+            plans.append({"n": 2, "mode": "e2e", "max_elems": 1, "part": part, "parts": 4, "limit": 4, "heavy_every": 2, "destructive": 0, "arrivals": int(24 * scale)})
     else:
         for n in range(0, 6):
             plans.append({"n": n, "mode": "fn", "max_elems": 3})
         for n in range(0, 6):
             parts = 8
             for part in range(parts):
-                plans.append({"n": n, "mode": "e2e", "max_elems": 2, "part": part, "parts": parts, "heavy_every": 4, "destructive": 25})
+                plans.append({"n": n, "mode": "e2e", "max_elems": 2, "part": part, "parts": parts, "heavy_every": 4, "destructive": 25, "arrivals": 40})
     for i, p in enumerate(plans):
         specs.append({"prop": PROP, "tier": tier, "seed": seed, "shard": i, "scripts": [i], "plan": p})
     return specs
